@@ -150,6 +150,7 @@ func runC04(c *Ctx) {
 	c.rule("N2", "a successful return justified by a link-following Exists()==false is preceded by the Lstat link test on the same path", 2)
 	c.rule("N4", "entries matching an exclusion pattern survive: the pattern list is compiled in full (NewExclusionRegexList leaves its loops only at the end of the list or on an error)", 1)
 	c.rule("N5", "the Lstat link test of the removal functions is made on a cleaned path: Lstat of a path that ends with a separator resolves the link, so the caller's spelling must not reach it", 2)
+	c.rule("N7", "the platform helpers of the privileged removal hand the path to every command they run (in every build configuration)", 2)
 	c.rule("N6", "in the removal call graph, operations that act through symbolic links (chown, chmod, chtimes) are applied only to paths found not to be links", 1)
 	c.rule("N3", "removal primitives in the removal call graph are afero.Fs.Remove and the privileged fallback only (no RemoveAll)", 2)
 
@@ -279,6 +280,48 @@ func runC04(c *Ctx) {
 		})
 	}
 	c.Extra["link_following_mutations"] = nFollow
+
+	// ---- N7 -----------------------------------------------------------------
+	// "When the call reports success … the tree is really gone": the last resort of RemoveWithPrivileges is a command run
+	// with the privileges of an administrator. The path to remove must be an operand of every command these helpers run —
+	// `rm -f` without an operand succeeds and removes nothing. The helpers exist once per platform (siblings): the rule is
+	// evaluated in every build configuration of the thorough tier.
+	for _, name := range []string{"removeFileAs", "removeDirAs"} {
+		g := c.fnOpt("platform", name)
+		if g == nil {
+			c.violate("N7", "platform."+name+"/path-is-an-operand", "", "helper platform."+name+" not found")
+			continue
+		}
+		c.FuncsSeen[fname(g)] = true
+		pi := paramIndexByName(g, "path")
+		bad, n := "", 0
+		allInstrs(g, func(in ssa.Instruction) {
+			cl, ok := in.(*ssa.Call)
+			if !ok {
+				return
+			}
+			h := staticCallee(&cl.Call)
+			if h == nil || h.Name() != "executeCommandAs" {
+				return
+			}
+			n++
+			has := false
+			if pi >= 0 {
+				for _, e := range variadicElems(cl.Call.Args[len(cl.Call.Args)-1]) {
+					for _, l := range sources(e, deriveOpts{through: func(nm string) bool { return strings.HasPrefix(nm, "path/filepath.") || strings.HasPrefix(nm, "strings.") || nm == "fmt.Sprintf" }}) {
+						if l == ssa.Value(g.Params[pi]) {
+							has = true
+						}
+					}
+				}
+			}
+			if !has {
+				bad = c.ipos(cl)
+			}
+		})
+		c.check(n > 0 && bad == "", "N7", fname(g)+"/path-is-an-operand", c.pos(g.Pos()), "the path is an operand of every command run",
+			"the command run at "+bad+" does not receive the path it is meant to remove: it succeeds without removing anything, and the forced removal — the last resort of RemoveWithPrivileges — reports success with the tree still in place")
+	}
 
 	// ---- N2 -----------------------------------------------------------------
 	for _, f := range fns {
